@@ -1,4 +1,670 @@
-From Coq Require Import QArith ZArith List Bool Lia Lra.
+(* Proofs about the CorrelationRemover model (C15). *)
+From Coq Require Import QArith ZArith List Bool Lia Lra Psatz Sorted.
 From FL Require Import Num CorrRemover.
 Import ListNotations.
 Open Scope Q_scope.
+
+(* ------------------------------------------------------------------ lengths *)
+Definition wf (n : nat) (L : list vec) : Prop := Forall (fun v => length v = n) L.
+
+Lemma vmap2_length f a b : length a = length b -> length (vmap2 f a b) = length a.
+Proof.
+  revert b. induction a as [|x a IH]; intros [|y b] H; cbn in *; try reflexivity; try discriminate.
+  f_equal. apply IH. lia.
+Qed.
+Lemma vadd_length a b : length a = length b -> length (vadd a b) = length a.
+Proof. apply vmap2_length. Qed.
+Lemma vsub_length a b : length a = length b -> length (vsub a b) = length a.
+Proof. apply vmap2_length. Qed.
+Lemma vscale_length k a : length (vscale k a) = length a.
+Proof. apply map_length. Qed.
+Lemma vzero_length a : length (vzero a) = length a.
+Proof. apply map_length. Qed.
+Lemma vred_length a : length (vred a) = length a.
+Proof. apply map_length. Qed.
+Lemma vshift_length m a : length (vshift m a) = length a.
+Proof. apply map_length. Qed.
+Lemma centre_col_length a : length (centre_col a) = length a.
+Proof. apply map_length. Qed.
+Lemma vblend_length k a b : length a = length b -> length (vblend k a b) = length a.
+Proof. intro H. unfold vblend. rewrite vadd_length; rewrite !vscale_length; auto. Qed.
+
+Lemma wf_centre n S : wf n S -> wf n (centre S).
+Proof.
+  unfold wf, centre. intro H. apply Forall_forall. intros c Hc. apply in_map_iff in Hc.
+  destruct Hc as [s [<- Hs]]. rewrite centre_col_length. exact (proj1 (Forall_forall _ _) H s Hs).
+Qed.
+
+(* ------------------------------------------------------------------ dot algebra *)
+Lemma dot_nil_r a : dot a [] = 0.
+Proof. destruct a; reflexivity. Qed.
+
+Lemma dot_comm a b : dot a b == dot b a.
+Proof.
+  revert b. induction a as [|x a IH]; intros [|y b]; cbn [dot]; try reflexivity.
+  rewrite IH. ring.
+Qed.
+
+Lemma dot_vadd_l a b c : length a = length b -> dot (vadd a b) c == dot a c + dot b c.
+Proof.
+  revert b c. induction a as [|x a IH]; intros [|y b] c H; cbn in H; try discriminate.
+  - cbn. ring.
+  - destruct c as [|z c]; cbn [vadd vmap2 dot].
+    + ring.
+    + fold (vadd a b). rewrite IH by lia. ring.
+Qed.
+
+Lemma dot_vsub_l a b c : length a = length b -> dot (vsub a b) c == dot a c - dot b c.
+Proof.
+  revert b c. induction a as [|x a IH]; intros [|y b] c H; cbn in H; try discriminate.
+  - cbn. ring.
+  - destruct c as [|z c]; cbn [vsub vmap2 dot].
+    + ring.
+    + fold (vsub a b). rewrite IH by lia. ring.
+Qed.
+
+Lemma dot_vscale_l k a c : dot (vscale k a) c == k * dot a c.
+Proof.
+  revert c. induction a as [|x a IH]; intros [|z c]; cbn [vscale map dot]; try ring.
+  fold (vscale k a). rewrite IH. ring.
+Qed.
+
+Lemma dot_vzero_l a c : dot (vzero a) c == 0.
+Proof.
+  revert c. induction a as [|x a IH]; intros [|z c]; cbn [vzero map dot]; try ring.
+  fold (vzero a). rewrite IH. ring.
+Qed.
+
+Lemma dot_vred_l a c : dot (vred a) c == dot a c.
+Proof.
+  revert c. induction a as [|x a IH]; intros [|z c]; cbn [vred map dot]; try ring.
+  fold (vred a). rewrite IH, Qred_correct. ring.
+Qed.
+
+Lemma dot_vadd_r a b c : length a = length b -> dot c (vadd a b) == dot c a + dot c b.
+Proof. intro H. rewrite dot_comm, dot_vadd_l by exact H. rewrite (dot_comm a c), (dot_comm b c). ring. Qed.
+Lemma dot_vsub_r a b c : length a = length b -> dot c (vsub a b) == dot c a - dot c b.
+Proof. intro H. rewrite dot_comm, dot_vsub_l by exact H. rewrite (dot_comm a c), (dot_comm b c). ring. Qed.
+Lemma dot_vscale_r k a c : dot c (vscale k a) == k * dot c a.
+Proof. rewrite dot_comm, dot_vscale_l, (dot_comm a c). ring. Qed.
+Lemma dot_vred_r a c : dot c (vred a) == dot c a.
+Proof. rewrite dot_comm, dot_vred_l, (dot_comm a c). ring. Qed.
+
+Lemma dot_vblend_l k u x c : length u = length x ->
+  dot (vblend k u x) c == k * dot u c + (1 - k) * dot x c.
+Proof.
+  intro H. unfold vblend. rewrite dot_vadd_l by (rewrite !vscale_length; exact H).
+  rewrite !dot_vscale_l. ring.
+Qed.
+
+Lemma dot_self_nonneg r : 0 <= dot r r.
+Proof. induction r as [|x r IH]; cbn [dot]; [lra | nra]. Qed.
+
+(* a vector of zero norm is orthogonal to everything *)
+Lemma dot_self_zero r : dot r r == 0 -> forall w, dot w r == 0.
+Proof.
+  induction r as [|x r IH]; intros H w.
+  - rewrite dot_nil_r. reflexivity.
+  - cbn [dot] in H. pose proof (dot_self_nonneg r) as Hr.
+    assert (Hx : x == 0) by nra.
+    assert (Hr0 : dot r r == 0) by nra.
+    destruct w as [|y w]; cbn [dot]; [reflexivity|].
+    rewrite (IH Hr0 w), Hx. ring.
+Qed.
+
+Lemma dot_self_zero_all r : dot r r == 0 -> Forall (fun x => x == 0) r.
+Proof.
+  induction r as [|x r IH]; intro H; constructor.
+  - cbn [dot] in H. pose proof (dot_self_nonneg r). nra.
+  - apply IH. cbn [dot] in H. pose proof (dot_self_nonneg r). nra.
+Qed.
+
+(* ------------------------------------------------------------------ projection on an orthogonal basis *)
+Fixpoint ortho (B : list vec) : Prop :=
+  match B with
+  | [] => True
+  | q :: B' => (forall p, In p B' -> dot q p == 0) /\ ~ dot q q == 0 /\ ortho B'
+  end.
+
+Lemma proj_basis_length n B v : wf n B -> length v = n -> length (proj_basis B v) = n.
+Proof.
+  intros HB Hv. induction HB as [|q B Hq HB IH]; cbn [proj_basis].
+  - rewrite vzero_length. exact Hv.
+  - rewrite vadd_length; rewrite vscale_length; congruence.
+Qed.
+
+Lemma resid_length n B v : wf n B -> length v = n -> length (resid B v) = n.
+Proof.
+  intros HB Hv. unfold resid. rewrite vred_length, vsub_length; [exact Hv|].
+  rewrite (proj_basis_length n); auto.
+Qed.
+
+(* the projection is a combination of basis vectors: orthogonal to whatever the basis is orthogonal to *)
+Lemma dot_proj_basis_orth n B v w : wf n B -> length v = n ->
+  (forall q, In q B -> dot q w == 0) -> dot (proj_basis B v) w == 0.
+Proof.
+  intros HB Hv. induction HB as [|q B Hq HB IH]; intro Hw; cbn [proj_basis].
+  - apply dot_vzero_l.
+  - rewrite dot_vadd_l by (rewrite vscale_length, (proj_basis_length n); auto).
+    rewrite dot_vscale_l, (Hw q (or_introl eq_refl)), IH by (intros p Hp; apply Hw; right; exact Hp).
+    ring.
+Qed.
+
+Lemma dot_proj_basis_basis n B v q : wf n B -> ortho B -> length v = n -> In q B ->
+  dot (proj_basis B v) q == dot v q.
+Proof.
+  intros HB. revert q. induction HB as [|q0 B Hq0 HB IH]; intros q HO Hv Hin; [destruct Hin|].
+  destruct HO as [Hperp [Hnz HO]]. cbn [proj_basis].
+  rewrite dot_vadd_l by (rewrite vscale_length, (proj_basis_length n); auto).
+  rewrite dot_vscale_l. destruct Hin as [<- | Hin].
+  - rewrite (dot_proj_basis_orth n) by (auto; intros p Hp; rewrite dot_comm; apply Hperp; exact Hp).
+    unfold coef. rewrite Qred_correct. field. exact Hnz.
+  - rewrite (Hperp q Hin), IH by auto. ring.
+Qed.
+
+Lemma resid_orth n B v q : wf n B -> ortho B -> length v = n -> In q B -> dot (resid B v) q == 0.
+Proof.
+  intros HB HO Hv Hin. unfold resid. rewrite dot_vred_l.
+  rewrite dot_vsub_l by (rewrite (proj_basis_length n); auto).
+  rewrite (dot_proj_basis_basis n) by auto. ring.
+Qed.
+
+(* s is "covered" by B: whatever is orthogonal to B is orthogonal to s (s lies in span B) *)
+Definition covered (n : nat) (B : list vec) (s : vec) : Prop :=
+  forall w, length w = n -> (forall q, In q B -> dot w q == 0) -> dot w s == 0.
+
+Lemma covered_step n B c w : wf n B -> length c = n -> length w = n ->
+  (forall q, In q B -> dot w q == 0) -> dot w (resid B c) == 0 -> dot w c == 0.
+Proof.
+  intros HB Hc Hw Hperp Hr. unfold resid in Hr. rewrite dot_vred_r in Hr.
+  rewrite dot_vsub_r in Hr by (rewrite (proj_basis_length n); auto).
+  assert (Hp : dot w (proj_basis B c) == 0).
+  { rewrite dot_comm. apply (dot_proj_basis_orth n); auto.
+    intros q Hq. rewrite dot_comm. apply Hperp. exact Hq. }
+  rewrite Hp in Hr. lra.
+Qed.
+
+Lemma gs_inv n : forall C B, wf n C -> wf n B -> ortho B ->
+  wf n (gs B C) /\ ortho (gs B C) /\ (forall q, In q B -> In q (gs B C)) /\
+  (forall c, In c C -> covered n (gs B C) c).
+Proof.
+  induction C as [|c C IH]; intros B HC HB HO.
+  - cbn [gs]. repeat split; auto. intros c [].
+  - pose proof (Forall_inv HC) as Hc. pose proof (Forall_inv_tail HC) as HC'. cbn beta in Hc. cbn [gs].
+    set (r := resid B c).
+    assert (Hr : length r = n) by (apply resid_length; auto).
+    destruct (Qeqb (dot r r) 0) eqn:E.
+    + destruct (IH B HC' HB HO) as [H1 [H2 [H3 H4]]].
+      repeat split; auto.
+      intros c' [<- | Hin]; [|apply H4; exact Hin].
+      intros w Hw Hperp. apply (covered_step n B c w); auto.
+      apply dot_self_zero. apply Qeq_bool_eq. exact E.
+    + assert (HB1 : wf n (r :: B)) by (constructor; auto).
+      assert (HO1 : ortho (r :: B)).
+      { cbn [ortho]. split; [|split; [|exact HO]].
+        - intros p Hp. apply (resid_orth n); auto.
+        - intro H0. apply Qeq_eq_bool in H0. unfold Qeqb in E. congruence. }
+      destruct (IH (r :: B) HC' HB1 HO1) as [H1 [H2 [H3 H4]]].
+      repeat split; auto.
+      * intros q Hq. apply H3. right. exact Hq.
+      * intros c' [<- | Hin]; [|apply H4; exact Hin].
+        intros w Hw Hperp. apply (covered_step n B c w); auto.
+        -- intros q Hq. apply Hperp, H3. right. exact Hq.
+        -- apply Hperp, H3. left. reflexivity.
+Qed.
+
+(* ★ the residual of the Gram-Schmidt projection is orthogonal to every column it projects on *)
+Theorem gs_orthogonal_on n C x c : wf n C -> length x = n -> In c C ->
+  dot (vsub x (proj_basis (basis C) x)) c == 0.
+Proof.
+  intros HC Hx Hc.
+  destruct (gs_inv n C [] HC (Forall_nil _) I) as [H1 [H2 [_ H4]]]. fold (basis C) in *.
+  apply (H4 c Hc).
+  - rewrite vsub_length; [exact Hx|]. rewrite (proj_basis_length n); auto.
+  - intros q Hq. rewrite <- dot_vred_l. apply (resid_orth n); auto.
+Qed.
+
+Lemma mmap2_map_r (f : vec -> vec -> vec) (g : vec -> vec) X :
+  mmap2 f X (map g X) = map (fun x => f x (g x)) X.
+Proof. induction X as [|x X IH]; cbn [mmap2 map]; [reflexivity | rewrite IH; reflexivity]. Qed.
+
+Lemma mmap2_map_l (f : vec -> vec -> vec) (g : vec -> vec) X :
+  mmap2 f (map g X) X = map (fun x => f (g x) x) X.
+Proof. induction X as [|x X IH]; cbn [mmap2 map]; [reflexivity | rewrite IH; reflexivity]. Qed.
+
+(* every column of X - project S X is orthogonal to every column of centre S *)
+Theorem gs_orthogonal n S X : (1 <= n)%nat -> wf n S -> wf n X ->
+  forall r c, In r (msub X (project S X)) -> In c (centre S) -> dot r c == 0.
+Proof.
+  intros _ HS HX r c Hr Hc. unfold msub, project, project_on in Hr. rewrite mmap2_map_r in Hr.
+  apply in_map_iff in Hr. destruct Hr as [x [<- Hx]].
+  apply (gs_orthogonal_on n); auto.
+  - apply wf_centre. exact HS.
+  - exact (proj1 (Forall_forall _ _) HX x Hx).
+Qed.
+
+(* ------------------------------------------------------------------ centring and covariance *)
+Lemma inject_nat_S k : inject_nat (S k) == inject_nat k + 1.
+Proof. unfold inject_nat. rewrite Nat2Z.inj_succ. unfold Z.succ. rewrite inject_Z_plus. reflexivity. Qed.
+
+Lemma inject_nat_pos n : (1 <= n)%nat -> ~ inject_nat n == 0.
+Proof. intros H E. unfold inject_nat, Qeq in E. cbn in E. lia. Qed.
+
+Lemma qsum_vshift m v : qsum (vshift m v) == qsum v - inject_nat (length v) * m.
+Proof.
+  induction v as [|x v IH]; cbn [vshift map qsum length].
+  - unfold inject_nat. cbn. ring.
+  - fold (vshift m v). rewrite IH, inject_nat_S. ring.
+Qed.
+
+(* sum_i (s_i - mean s) = 0 *)
+Lemma qsum_centre_col v : (1 <= length v)%nat -> qsum (centre_col v) == 0.
+Proof.
+  intro H. unfold centre_col. rewrite qsum_vshift. unfold mean. field. apply inject_nat_pos. exact H.
+Qed.
+
+Lemma dot_vshift_r m a c : length a = length c -> dot c (vshift m a) == dot c a - m * qsum c.
+Proof.
+  revert a. induction c as [|z c IH]; intros [|x a] H; cbn in H; try discriminate.
+  - cbn. ring.
+  - cbn [vshift map dot qsum]. fold (vshift m a). rewrite IH by lia. ring.
+Qed.
+
+Lemma covsum_centred r s : length r = length s -> (1 <= length s)%nat ->
+  covsum r s == dot r (centre_col s).
+Proof.
+  intros Hl Hn. unfold covsum. unfold centre_col at 1. rewrite dot_comm.
+  rewrite dot_vshift_r by (rewrite centre_col_length; exact Hl).
+  rewrite qsum_centre_col by exact Hn. rewrite dot_comm. ring.
+Qed.
+
+(* ------------------------------------------------------------------ _split_X *)
+Lemma index_of_bound x l : forall i j, index_of x l i = Some j -> (i <= j < i + length l)%nat.
+Proof.
+  induction l as [|y l IH]; intros i j H; cbn [index_of] in H; [discriminate|].
+  destruct (x =? y)%Z.
+  - injection H as <-. cbn [length]. lia.
+  - apply IH in H. cbn [length]. lia.
+Qed.
+
+Lemma index_of_nth x l : forall i j, index_of x l i = Some j -> nth_error l (j - i) = Some x.
+Proof.
+  induction l as [|y l IH]; intros i j H; cbn [index_of] in H; [discriminate|].
+  destruct (x =? y)%Z eqn:E.
+  - injection H as <-. rewrite Nat.sub_diag. cbn. apply Z.eqb_eq in E. congruence.
+  - pose proof (index_of_bound _ _ _ _ H) as Hb. apply IH in H.
+    replace (j - i)%nat with (S (j - S i)) by lia. exact H.
+Qed.
+
+Lemma sens_idx_spec names : forall ids s, sens_idx names ids = Some s ->
+  Forall2 (fun id i => nth_error names i = Some id) ids s.
+Proof.
+  induction ids as [|id ids IH]; intros s H; cbn [sens_idx] in H.
+  - injection H as <-. constructor.
+  - destruct (index_of id names 0) as [i|] eqn:E; [|discriminate].
+    destruct (sens_idx names ids) as [l|]; [|discriminate]. injection H as <-.
+    constructor; [|apply IH; reflexivity].
+    apply index_of_nth in E. rewrite Nat.sub_0_r in E. exact E.
+Qed.
+
+Lemma sens_idx_bound names ids s : sens_idx names ids = Some s ->
+  Forall (fun i => (i < length names)%nat) s.
+Proof.
+  intro H. apply sens_idx_spec in H. induction H as [|id i ids s Hi H IH]; constructor; auto.
+  apply nth_error_Some. congruence.
+Qed.
+
+Lemma use_idx_spec m sens i : In i (use_idx m sens) <-> (i < m)%nat /\ ~ In i sens.
+Proof.
+  unfold use_idx. rewrite filter_In, in_seq. unfold nat_mem. split.
+  - intros [Hi Hn]. split; [lia|]. intro Hin. apply negb_true_iff in Hn.
+    assert (existsb (Nat.eqb i) sens = true) by (apply existsb_exists; exists i; split; auto; apply Nat.eqb_refl).
+    congruence.
+  - intros [Hi Hn]. split; [lia|]. apply negb_true_iff. destruct (existsb (Nat.eqb i) sens) eqn:E; auto.
+    apply existsb_exists in E. destruct E as [j [Hj Hij]]. apply Nat.eqb_eq in Hij. subst j. contradiction.
+Qed.
+
+Lemma cols_wf n X idx : wf n X -> Forall (fun i => (i < length X)%nat) idx -> wf n (cols X idx).
+Proof.
+  intros HX Hidx. unfold wf, cols. apply Forall_forall. intros c Hc. apply in_map_iff in Hc.
+  destruct Hc as [i [<- Hi]]. apply (proj1 (Forall_forall _ _) HX). apply nth_In.
+  exact (proj1 (Forall_forall _ _) Hidx i Hi).
+Qed.
+
+Lemma split_wf n names ids X Xuse Xs : wf n X -> length names = length X ->
+  split names ids X = Some (Xuse, Xs) -> wf n Xuse /\ wf n Xs.
+Proof.
+  intros HX Hl H. unfold split in H. destruct (sens_idx names ids) as [s|] eqn:E; [|discriminate].
+  injection H as <- <-. split; apply cols_wf; auto.
+  - apply Forall_forall. intros i Hi. apply use_idx_spec in Hi. tauto.
+  - rewrite <- Hl. apply sens_idx_bound with (ids := ids). exact E.
+Qed.
+
+(* ★ alpha = 1: every output column has zero sample covariance with every sensitive column *)
+Theorem zero_covariance_split n alpha Xuse Xs : (1 <= n)%nat -> wf n Xuse -> wf n Xs -> alpha == 1 ->
+  forall r s, In r (fit_transform_split alpha Xuse Xs) -> In s Xs -> covsum r s == 0.
+Proof.
+  intros Hn HU HS Ha r s Hr Hs. unfold fit_transform_split, filter_on in Hr.
+  apply in_map_iff in Hr. destruct Hr as [x [<- Hx]].
+  pose proof (proj1 (Forall_forall _ _) HU x Hx) as Hlx. cbn beta in Hlx.
+  pose proof (proj1 (Forall_forall _ _) HS s Hs) as Hls. cbn beta in Hls.
+  pose proof (wf_centre n Xs HS) as HC.
+  assert (Hb : wf n (basis (centre Xs))).
+  { destruct (gs_inv n (centre Xs) [] HC (Forall_nil _) I) as [H1 _]. exact H1. }
+  assert (Hlu : length (vsub x (proj_basis (basis (centre Xs)) x)) = n).
+  { rewrite vsub_length; [exact Hlx|]. rewrite (proj_basis_length n); auto. }
+  rewrite covsum_centred.
+  - rewrite dot_vblend_l by congruence. rewrite Ha.
+    rewrite (gs_orthogonal_on n) by (auto; apply in_map; exact Hs). ring.
+  - rewrite vblend_length by congruence. congruence.
+  - lia.
+Qed.
+
+Theorem zero_covariance n names ids alpha X out Xs Xuse :
+  (2 <= n)%nat -> wf n X -> length names = length X -> alpha == 1 ->
+  split names ids X = Some (Xuse, Xs) -> fit_transform names ids alpha X = Some out ->
+  forall r s, In r out -> In s Xs -> covsum r s == 0 /\ sample_cov r s == 0.
+Proof.
+  intros Hn HX Hl Ha Hsp Hft r s Hr Hs. unfold fit_transform in Hft. rewrite Hsp in Hft. injection Hft as <-.
+  destruct (split_wf n names ids X Xuse Xs HX Hl Hsp) as [HU HS].
+  assert (H0 : covsum r s == 0) by (apply (zero_covariance_split n alpha Xuse Xs); auto; lia).
+  split; [exact H0|]. unfold sample_cov. rewrite H0.
+  assert (Hlr : length r = n).
+  { unfold fit_transform_split, filter_on in Hr. apply in_map_iff in Hr. destruct Hr as [x [<- Hx]].
+    pose proof (proj1 (Forall_forall _ _) HU x Hx) as Hlx. cbn beta in Hlx.
+    assert (Hb : wf n (basis (centre Xs))).
+    { destruct (gs_inv n (centre Xs) [] (wf_centre n Xs HS) (Forall_nil _) I) as [H1 _]. exact H1. }
+    rewrite vblend_length; rewrite vsub_length; try rewrite (proj_basis_length n); auto. }
+  rewrite Hlr. field. intro E.
+  assert (E' : inject_nat n == 1) by lra. unfold inject_nat, Qeq in E'. cbn in E'. lia.
+Qed.
+
+(* ------------------------------------------------------------------ alpha blend *)
+Definition veq (a b : vec) : Prop := Forall2 Qeq a b.
+Definition meq (A B : mat) : Prop := Forall2 veq A B.
+
+(* ★ the output IS alpha * (X_use - project) + (1 - alpha) * X_use, column by column *)
+Theorem alpha_blend_formula alpha Xuse Xs :
+  fit_transform_split alpha Xuse Xs = mmap2 (vblend alpha) (msub Xuse (project Xs Xuse)) Xuse.
+Proof.
+  unfold fit_transform_split, filter_on, msub, project, project_on.
+  rewrite mmap2_map_r, mmap2_map_l. reflexivity.
+Qed.
+
+Lemma vblend_entry k u x : length u = length x ->
+  forall i, nth i (vblend k u x) 0 == k * nth i u 0 + (1 - k) * nth i x 0.
+Proof.
+  revert x. induction u as [|a u IH]; intros [|b x] H i; cbn in H; try discriminate.
+  - cbn. destruct i; ring.
+  - unfold vblend, vadd, vscale. cbn [map vmap2]. destruct i as [|i]; cbn [nth]; [ring|].
+    apply (IH x). lia.
+Qed.
+
+Lemma vblend_zero k u x : k == 0 -> length u = length x -> veq (vblend k u x) x.
+Proof.
+  intro Hk. revert x. induction u as [|a u IH]; intros [|b x] H; cbn in H; try discriminate.
+  - constructor.
+  - unfold vblend, vadd, vscale. cbn [map vmap2]. constructor; [rewrite Hk; ring|].
+    apply (IH x). lia.
+Qed.
+
+Lemma vblend_one k u x : k == 1 -> length u = length x -> veq (vblend k u x) u.
+Proof.
+  intro Hk. revert x. induction u as [|a u IH]; intros [|b x] H; cbn in H; try discriminate.
+  - constructor.
+  - unfold vblend, vadd, vscale. cbn [map vmap2]. constructor; [rewrite Hk; ring|].
+    apply (IH x). lia.
+Qed.
+
+Lemma Forall2_map_self {A} (R : A -> A -> Prop) (f : A -> A) L :
+  (forall x, In x L -> R (f x) x) -> Forall2 R (map f L) L.
+Proof.
+  induction L as [|x L IH]; intro H; cbn [map]; constructor.
+  - apply H. left. reflexivity.
+  - apply IH. intros y Hy. apply H. right. exact Hy.
+Qed.
+
+Lemma basis_wf n C : wf n C -> wf n (basis C).
+Proof. intro HC. destruct (gs_inv n C [] HC (Forall_nil _) I) as [H1 _]. exact H1. Qed.
+
+(* alpha = 0 returns the non-sensitive columns unchanged (and in their order) *)
+Theorem alpha_zero_split n alpha Xuse Xs : wf n Xuse -> wf n Xs -> alpha == 0 ->
+  meq (fit_transform_split alpha Xuse Xs) Xuse.
+Proof.
+  intros HU HS Ha. unfold fit_transform_split, filter_on. apply Forall2_map_self.
+  intros x Hx. pose proof (proj1 (Forall_forall _ _) HU x Hx) as Hlx. cbn beta in Hlx.
+  apply vblend_zero; [exact Ha|].
+  rewrite vsub_length; [reflexivity|]. rewrite (proj_basis_length n); auto.
+  apply basis_wf, wf_centre. exact HS.
+Qed.
+
+(* alpha = 1 returns the residual X_use - project *)
+Theorem alpha_one_split n alpha Xuse Xs : wf n Xuse -> wf n Xs -> alpha == 1 ->
+  meq (fit_transform_split alpha Xuse Xs) (msub Xuse (project Xs Xuse)).
+Proof.
+  intros HU HS Ha. unfold fit_transform_split, filter_on, msub, project, project_on.
+  rewrite mmap2_map_r. induction HU as [|x L Hx HL IH]; cbn [map]; constructor; [|exact IH].
+  apply vblend_one; [exact Ha|].
+  rewrite vsub_length; [reflexivity|]. rewrite (proj_basis_length n); auto.
+  apply basis_wf, wf_centre. exact HS.
+Qed.
+
+Theorem alpha_blend n names ids alpha X out Xuse Xs :
+  wf n X -> length names = length X ->
+  split names ids X = Some (Xuse, Xs) -> fit_transform names ids alpha X = Some out ->
+  out = mmap2 (vblend alpha) (msub Xuse (project Xs Xuse)) Xuse /\
+  (alpha == 0 -> meq out Xuse) /\
+  (alpha == 1 -> meq out (msub Xuse (project Xs Xuse))).
+Proof.
+  intros HX Hl Hsp Hft. unfold fit_transform in Hft. rewrite Hsp in Hft. injection Hft as <-.
+  destruct (split_wf n names ids X Xuse Xs HX Hl Hsp) as [HU HS].
+  split; [apply alpha_blend_formula|]. split; intro Ha.
+  - apply (alpha_zero_split n); auto.
+  - apply (alpha_one_split n); auto.
+Qed.
+
+(* ------------------------------------------------------------------ columns kept *)
+Lemma seq_ssorted : forall len start, StronglySorted lt (seq start len).
+Proof.
+  induction len as [|len IH]; intro start; cbn [seq]; constructor; [apply IH|].
+  apply Forall_forall. intros x Hx. apply in_seq in Hx. lia.
+Qed.
+
+Lemma filter_ssorted (p : nat -> bool) l : StronglySorted lt l -> StronglySorted lt (filter p l).
+Proof.
+  induction 1 as [|a l Hs IH Hf]; cbn [filter]; [constructor|].
+  destruct (p a); [|exact IH]. constructor; [exact IH|].
+  apply Forall_forall. intros x Hx. apply filter_In in Hx. destruct Hx as [Hx _].
+  exact (proj1 (Forall_forall _ _) Hf x Hx).
+Qed.
+
+(* ★ sensitive columns are taken in the order of the ids through the lookup (by position or by label),
+   they are dropped from the output, the other columns keep their original order *)
+Theorem columns_kept names ids X Xuse Xs : split names ids X = Some (Xuse, Xs) ->
+  exists s, Forall2 (fun id i => nth_error names i = Some id) ids s /\
+            Xs = cols X s /\ Xuse = cols X (use_idx (length X) s) /\
+            (forall i, In i (use_idx (length X) s) <-> (i < length X)%nat /\ ~ In i s) /\
+            StronglySorted lt (use_idx (length X) s) /\
+            (forall alpha out, fit_transform names ids alpha X = Some out -> length out = length Xuse).
+Proof.
+  intro H. pose proof H as Hsp. unfold split in H.
+  destruct (sens_idx names ids) as [s|] eqn:E; [|discriminate].
+  injection H as <- <-. exists s. split; [apply sens_idx_spec; exact E|].
+  split; [reflexivity|]. split; [reflexivity|]. split; [apply use_idx_spec|].
+  split; [apply filter_ssorted, seq_ssorted|].
+  intros alpha out Hft. unfold fit_transform in Hft. rewrite Hsp in Hft. injection Hft as <-.
+  unfold fit_transform_split, filter_on. apply map_length.
+Qed.
+
+(* a missing id is an error, and only that *)
+Lemma index_of_none x l : forall i, index_of x l i = None <-> ~ In x l.
+Proof.
+  induction l as [|y l IH]; intro i; cbn [index_of In]; [tauto|].
+  destruct (x =? y)%Z eqn:E.
+  - apply Z.eqb_eq in E. split; [discriminate | intro H; exfalso; apply H; left; congruence].
+  - apply Z.eqb_neq in E. rewrite IH. split; intro H; [intros [H1|H1]; [congruence | tauto] | tauto].
+Qed.
+
+Theorem split_defined names ids X : (exists p, split names ids X = Some p) <-> Forall (fun id => In id names) ids.
+Proof.
+  unfold split. split.
+  - intros [p H]. destruct (sens_idx names ids) as [s|] eqn:E; [clear H|discriminate].
+    revert s E. induction ids as [|id ids IH]; intros s E; constructor.
+    + cbn [sens_idx] in E. destruct (index_of id names 0) eqn:E1; [|discriminate].
+      destruct (In_dec Z.eq_dec id names) as [Hi|Hn]; [exact Hi|].
+      apply (index_of_none id names 0%nat) in Hn. congruence.
+    + cbn [sens_idx] in E. destruct (index_of id names 0); [|discriminate].
+      destruct (sens_idx names ids) as [l|]; [|discriminate]. apply (IH l). reflexivity.
+  - intro H. assert (Hs : exists s, sens_idx names ids = Some s).
+    { induction H as [|id ids Hid H IH]; [exists []; reflexivity|].
+      destruct IH as [l Hl]. cbn [sens_idx]. rewrite Hl.
+      destruct (index_of id names 0) as [i|] eqn:E; [exists (i :: l); reflexivity|].
+      apply index_of_none in E. contradiction. }
+    destruct Hs as [s Hs]. rewrite Hs. eexists. reflexivity.
+Qed.
+
+(* ------------------------------------------------------------------ the defect of e03cf38 is distinguished *)
+Definition witness_X : mat :=
+  [[0;1;0;1;2;2]; [1;3;2;5;4;7]; [5;6;8;5;7;9]; [2;0;1;1;3;0]].
+
+Theorem global_centring_refuted :
+  exists names ids out Xuse Xs r s,
+    wf 6 witness_X /\ length names = length witness_X /\
+    split names ids witness_X = Some (Xuse, Xs) /\
+    fit_transform_global names ids 1 witness_X = Some out /\
+    In r out /\ In s Xs /\ ~ covsum r s == 0.
+Proof.
+  exists [0;1;2;3]%Z, [0;2]%Z. do 5 eexists.
+  split; [repeat constructor|]. split; [reflexivity|].
+  split; [vm_compute; reflexivity|]. split; [vm_compute; reflexivity|].
+  split; [left; reflexivity|]. split; [left; reflexivity|].
+  vm_compute. intro H. discriminate H.
+Qed.
+
+(* ------------------------------------------------------------------ uniqueness of the projection *)
+Lemma lincomb_length n : forall ws C x, wf n C -> length x = n -> length (lincomb ws C x) = n.
+Proof.
+  induction ws as [|w ws IH]; intros C x HC Hx; cbn [lincomb]; [rewrite vzero_length; exact Hx|].
+  destruct C as [|c C]; [rewrite vzero_length; exact Hx|].
+  pose proof (Forall_inv HC) as Hc. cbn beta in Hc.
+  rewrite vadd_length; rewrite vscale_length; [exact Hc|]. rewrite IH; auto. exact (Forall_inv_tail HC).
+Qed.
+
+Lemma dot_lincomb_orth n w : forall ws C x, wf n C -> length x = n ->
+  (forall c, In c C -> dot w c == 0) -> dot w (lincomb ws C x) == 0.
+Proof.
+  induction ws as [|k ws IH]; intros C x HC Hx Hw; cbn [lincomb].
+  - rewrite dot_comm. apply dot_vzero_l.
+  - destruct C as [|c C]; [rewrite dot_comm; apply dot_vzero_l|].
+    pose proof (Forall_inv HC) as Hc. cbn beta in Hc.
+    rewrite dot_vadd_r by (rewrite vscale_length, (lincomb_length n); auto; exact (Forall_inv_tail HC)).
+    rewrite dot_vscale_r, (Hw c (or_introl eq_refl)).
+    rewrite IH; auto; [ring | exact (Forall_inv_tail HC) | intros c' Hc'; apply Hw; right; exact Hc'].
+Qed.
+
+(* every Gram-Schmidt basis vector lies in the span of the columns *)
+Lemma gs_span n C0 : forall C B, wf n C -> wf n B -> incl C C0 ->
+  (forall q, In q B -> covered n C0 q) -> forall q, In q (gs B C) -> covered n C0 q.
+Proof.
+  induction C as [|c C IH]; intros B HC HB Hincl Hcov q Hq; cbn [gs] in Hq; [apply Hcov; exact Hq|].
+  pose proof (Forall_inv HC) as Hc. pose proof (Forall_inv_tail HC) as HC'. cbn beta in Hc.
+  assert (Hincl' : incl C C0) by (intros y Hy; apply Hincl; right; exact Hy).
+  assert (Hr : covered n C0 (resid B c)).
+  { intros w Hw Hperp. unfold resid. rewrite dot_vred_r.
+    rewrite dot_vsub_r by (rewrite (proj_basis_length n); auto).
+    rewrite (Hperp c) by (apply Hincl; left; reflexivity).
+    assert (Hp : dot w (proj_basis B c) == 0).
+    { rewrite dot_comm. apply (dot_proj_basis_orth n); auto.
+      intros p Hp. rewrite dot_comm. apply (Hcov p Hp w Hw Hperp). }
+    rewrite Hp. ring. }
+  destruct (Qeqb (dot (resid B c) (resid B c)) 0).
+  - apply (IH B); auto.
+  - apply (IH (resid B c :: B)); auto.
+    + constructor; auto. apply resid_length; auto.
+    + intros p [<- | Hp]; [exact Hr | apply Hcov; exact Hp].
+Qed.
+
+Lemma vsub_zero_veq a b : length a = length b -> Forall (fun x => x == 0) (vsub a b) -> veq a b.
+Proof.
+  revert b. induction a as [|x a IH]; intros [|y b] H Hz; cbn in H; try discriminate; constructor.
+  - cbn [vsub vmap2] in Hz. pose proof (Forall_inv Hz) as H0. cbn beta in H0. lra.
+  - apply IH; [lia|]. cbn [vsub vmap2] in Hz. exact (Forall_inv_tail Hz).
+Qed.
+
+(* ★ any coefficients solving the normal equations give the projection computed by Gram-Schmidt:
+   the fitted values do not depend on which least-squares solution lstsq returns *)
+Theorem projection_unique n C x ws : wf n C -> length x = n ->
+  (forall c, In c C -> dot c (lincomb ws C x) == dot c x) ->
+  veq (lincomb ws C x) (proj_basis (basis C) x).
+Proof.
+  intros HC Hx Hne.
+  pose proof (basis_wf n C HC) as HB.
+  pose proof (lincomb_length n ws C x HC Hx) as Hl.
+  pose proof (proj_basis_length n (basis C) x HB Hx) as Hp.
+  set (d := vsub (lincomb ws C x) (proj_basis (basis C) x)).
+  assert (Hd : length d = n) by (unfold d; rewrite vsub_length; congruence).
+  assert (Hperp : forall c, In c C -> dot d c == 0).
+  { intros c Hc. unfold d. rewrite dot_vsub_l by congruence.
+    rewrite (dot_comm (lincomb ws C x) c), (Hne c Hc).
+    pose proof (gs_orthogonal_on n C x c HC Hx Hc) as H0.
+    rewrite dot_vsub_l in H0 by congruence. rewrite (dot_comm c x). lra. }
+  assert (H1 : dot d (lincomb ws C x) == 0) by (apply (dot_lincomb_orth n); auto).
+  assert (H2 : dot d (proj_basis (basis C) x) == 0).
+  { rewrite dot_comm. apply (dot_proj_basis_orth n); auto.
+    intros q Hq. rewrite dot_comm.
+    apply (gs_span n C C [] HC (Forall_nil _) (incl_refl C)) with (q := q); auto.
+    intros q' []. }
+  assert (H0 : dot d d == 0).
+  { unfold d at 2. rewrite dot_vsub_r by congruence. rewrite H1, H2. ring. }
+  apply vsub_zero_veq; [congruence|]. apply dot_self_zero_all. exact H0.
+Qed.
+
+(* ------------------------------------------------------------------ transform with learned coefficients *)
+Lemma shift_cols_means Xs : shift_cols (map mean Xs) Xs = centre Xs.
+Proof. induction Xs as [|s Xs IH]; cbn [map shift_cols centre]; [reflexivity|]. fold (centre Xs). rewrite IH. reflexivity. Qed.
+
+Lemma veq_vsub_r x a b : veq a b -> veq (vsub x a) (vsub x b).
+Proof.
+  intro H. revert x. induction H as [|p q a b Hpq H IH]; intros [|y x]; cbn [vsub vmap2]; try constructor.
+  - rewrite Hpq. reflexivity.
+  - apply IH.
+Qed.
+
+Lemma veq_vblend_l k u u' x : veq u u' -> veq (vblend k u x) (vblend k u' x).
+Proof.
+  intro H. revert x. unfold vblend, vadd, vscale.
+  induction H as [|p q a b Hpq H IH]; intros [|y x]; cbn [map vmap2]; try constructor.
+  - rewrite Hpq. reflexivity.
+  - apply IH.
+Qed.
+
+(* transform(fit(X))(X) = fit_transform(X) whenever the learned beta solves the normal equations
+   (a closed boolean, evaluated by the kernel on every correspondence case) *)
+Theorem transform_is_fit_transform_partial n beta alpha Xuse Xs : wf n Xuse -> wf n Xs ->
+  normal_eqs_hold (centre Xs) beta Xuse = true ->
+  meq (transform_split {| f_mean := map mean Xs; f_beta := beta |} alpha Xuse Xs)
+      (fit_transform_split alpha Xuse Xs).
+Proof.
+  intros HU HS. unfold transform_split, fit_transform_split, filter_on, normal_eqs_hold.
+  cbn [f_mean f_beta]. rewrite shift_cols_means.
+  pose proof (wf_centre n Xs HS) as HC. generalize 0%nat as j.
+  induction HU as [|x L Hx HL IH]; intros j H; cbn [mapi_from map]; [constructor|].
+  cbn [mapi_from forallb] in H. apply andb_true_iff in H. destruct H as [Hj H].
+  constructor; [|apply IH; exact H].
+  apply veq_vblend_l, veq_vsub_r. apply (projection_unique n); auto.
+  intros c Hc. rewrite forallb_forall in Hj. apply Qeq_bool_eq. apply Hj. exact Hc.
+Qed.
+
+Theorem transform_is_fit_transform_api_partial n names ids alpha X Xuse Xs f :
+  wf n X -> length names = length X -> split names ids X = Some (Xuse, Xs) ->
+  fit names ids X = Some f -> normal_eqs_hold (centre Xs) (f_beta f) Xuse = true ->
+  exists o1 o2, transform names ids f alpha X = Some o1 /\
+                fit_transform names ids alpha X = Some o2 /\ meq o1 o2.
+Proof.
+  intros HX Hl Hsp Hf Hn. unfold fit in Hf. rewrite Hsp in Hf. unfold fit_split in Hf.
+  destruct (solve_beta (centre Xs) Xuse) as [b|]; [|discriminate]. injection Hf as <-.
+  cbn [f_beta] in Hn. unfold transform, fit_transform. rewrite Hsp. do 2 eexists.
+  split; [reflexivity|]. split; [reflexivity|].
+  destruct (split_wf n names ids X Xuse Xs HX Hl Hsp) as [HU HS].
+  apply (transform_is_fit_transform_partial n); auto.
+Qed.
